@@ -511,8 +511,8 @@ Proof.
       + reflexivity.
       + exact Hst.
   }
-  destruct o as [| |k|k|k v| | |]; try (cbn [expand] in H; exact (Hconnect _ _ H));
-    cbn [expand run] in H; unfold step in H; rewrite Hr in H; cbn [negb] in H.
+  destruct o as [| |k|k|k v|k| | |]; try (cbn [expand] in H; exact (Hconnect _ _ H));
+    cbn [expand run] in H; unfold step in H; try rewrite Hr in H; cbn [negb] in H.
   - (* ClientClose *)
     cbn [negb with_sessions running] in H. rewrite Hr in H. cbn [negb] in H. inversion H; subst. clear H.
     apply rel_intro; unfold remove; cbn [trk running store with_sessions max_sessions next_id sessions served accepted up value];
@@ -531,6 +531,8 @@ Proof.
     unfold alive in H. rewrite (existsb_ids k _ Hal), Hids in H.
     destruct (existsb (N.eqb k) (served ss)); inversion H; subst; clear H;
       apply rel_intro; cbn [trk running store served accepted up value]; try assumption; try reflexivity; try congruence.
+  - (* Flood *)
+    inversion H; subst. apply rel_intro; assumption.
   - (* SetDecode *)
     inversion H; subst. apply rel_intro; assumption.
   - (* Stop *)
